@@ -356,10 +356,11 @@ Inductive event :=
 | ECloseEnd (k : nat)                (* Close returned nil *)
 | EDeq (id : Z)                      (* broker.recv.dequeued *)
 | EAns (id : Z) (ok : bool) (e : Z)  (* broker.recv.delivered (ok) / broker.recv.failed (error id e); the caller has it *)
-| EExit.                             (* receiver left its loop (inferred from Close returning nil) *)
+| EExit                              (* receiver left its loop (inferred from Close returning nil) *)
+| ESync (n : nat).                   (* steering: the receiver was held here until n lock-holder events had been logged *)
 
 Definition is_recv_event (e : event) : bool :=
-  match e with EDeq _ | EAns _ _ _ | EExit => true | _ => false end.
+  match e with EDeq _ | EAns _ _ _ | EExit | ESync _ => true | _ => false end.
 
 Definition opt_bind {A B} (o : option A) (f : A -> option B) : option B :=
   match o with Some x => f x | None => None end.
@@ -385,6 +386,7 @@ Definition event_choices (s : state) (e : event) : list choice :=
   | EDeq _ => [RDeq]
   | EAns _ _ _ => match s_recv s with RServing p => [RServe; CRecv (p_k p)] | _ => [RServe] end
   | EExit => [RExit]
+  | ESync _ => []
   end.
 
 (* the observed values the event carries must be the model's *)
@@ -409,13 +411,19 @@ Definition event_check (s0 s : state) (e : event) : bool :=
     | _ => false
     end
   | EExit => true
+  | ESync _ => true
   end.
 
 Definition apply_event (c : cfg) (s : state) (e : event) : option state :=
   opt_bind (run_from c s (event_choices s e)) (fun s' => guard (event_check s s' e) s').
 
-(* greedy merge of the lock holders' sequence with the receiver's sequence *)
-Fixpoint replay (c : cfg) (fuel : nat) (s : state) (ls lr : list event) : option state :=
+(* greedy merge of the lock holders' sequence with the receiver's sequence; [ns] counts the lock-holder
+   events applied so far: [ESync n] in the receiver's sequence can be passed only when ns >= n (what was
+   logged before the harness released the held receiver happened before the receiver went on) *)
+Definition sync_ok (ns : nat) (r : event) : bool :=
+  match r with ESync n => Nat.leb n ns | _ => true end.
+
+Fixpoint replay (c : cfg) (fuel : nat) (s : state) (ns : nat) (ls lr : list event) : option state :=
   match fuel with
   | O => None
   | S f =>
@@ -423,16 +431,16 @@ Fixpoint replay (c : cfg) (fuel : nat) (s : state) (ls lr : list event) : option
     | [], [] => Some s
     | e :: ls', _ =>
       match apply_event c s e with
-      | Some s' => replay c f s' ls' lr
+      | Some s' => replay c f s' (S ns) ls' lr
       | None => match lr with
-                | r :: lr' => opt_bind (apply_event c s r) (fun s' => replay c f s' ls lr')
+                | r :: lr' => if sync_ok ns r then opt_bind (apply_event c s r) (fun s' => replay c f s' ns ls lr') else None
                 | [] => None
                 end
       end
-    | [], r :: lr' => opt_bind (apply_event c s r) (fun s' => replay c f s' [] lr')
+    | [], r :: lr' => if sync_ok ns r then opt_bind (apply_event c s r) (fun s' => replay c f s' ns [] lr') else None
     end
   end.
 
 Definition replay_log (c : cfg) (log : list event) : option state :=
-  replay c (S (length log)) (init c)
+  replay c (S (length log)) (init c) 0
          (filter (fun e => negb (is_recv_event e)) log) (filter is_recv_event log).
